@@ -125,6 +125,8 @@ class Machine:
             st.viol('O7', 'jump operand %s is neither a placeholder nor a captured code position' % show_av(tgt))
 
     def check_edge_label(self, st, edge, lab, what):
+        if getattr(lab, 'stale', False):
+            st.viol('O4', '%s uses a position captured before remove_last_instruction() shortened the code (it now points past the instruction)' % what)
         if not edge['reach']:
             return
         if not lab.boundary:
@@ -260,8 +262,11 @@ class Machine:
         if s is None or s['fetch'] or s['class'] != 'fallthrough':
             st.viol('O4', 'remove_last_instruction removes OpCode::%s which has operands or transfers control' % st.last)
             return
-        if st.bound or st.pos in st.labels:
-            st.viol('O4', 'the position after the removed OpCode::%s is a jump target / captured label' % st.last)
+        if st.bound:
+            st.viol('O4', 'the position after the removed OpCode::%s is a jump target' % st.last)
+        lab0 = st.labels.get(st.pos)
+        if lab0 is not None:
+            lab0.stale = True
         st.instr_at.pop(le['pos'], None)
         if st.code and st.code[-1]['kind'] == 'op' and st.code[-1]['op'] == st.last:
             st.code.pop()
